@@ -229,20 +229,20 @@ func scenarios() []*sched.Scenario {
 
 	add("promise/event-trigger-vs-ontrigger", func() {
 		e := promise.NewEvent()
-		n := map[string]int{}
-		e.OnTrigger(func() { n["before"]++ })
+		n := &vrt.Counts{}
+		e.OnTrigger(func() { n.Inc("before") })
 		vrt.Par(
 			func() { e.Trigger() },
-			func() { e.OnTrigger(func() { n["during"]++ }) },
-			func() { e.Trigger(); e.OnTrigger(func() { n["after"]++ }) },
+			func() { e.OnTrigger(func() { n.Inc("during") }) },
+			func() { e.Trigger(); e.OnTrigger(func() { n.Inc("after") }) },
 			func() {
-				u := e.OnTrigger(func() { n["unsub"]++ })
+				u := e.OnTrigger(func() { n.Inc("unsub") })
 				u()
 			},
 		)
-		vrt.Observe("final", fmt.Sprint(n))
-		if n["before"] != 1 || n["during"] != 1 || n["after"] != 1 || n["unsub"] > 1 {
-			vrt.Fail("promise-callback-count", "callbacks registered before/during/after Trigger ran %d/%d/%d times (unsubscribed one %d)", n["before"], n["during"], n["after"], n["unsub"])
+		vrt.Observe("final", n.String())
+		if n.Get("before") != 1 || n.Get("during") != 1 || n.Get("after") != 1 || n.Get("unsub") > 1 {
+			vrt.Fail("promise-callback-count", "callbacks registered before/during/after Trigger ran %d/%d/%d times (unsubscribed one %d)", n.Get("before"), n.Get("during"), n.Get("after"), n.Get("unsub"))
 		}
 		if !e.WasTriggered() {
 			vrt.Fail("promise-not-triggered", "WasTriggered is false")
@@ -429,6 +429,7 @@ func main() {
 	cli.Main(&cli.Property{
 		ID: "C15", Level: "model_checking", Scenarios: scenarios(), Parts: []*cli.Part{part},
 		QuickBound: 2, ThoroughBound: 3, QuickUnbounded: true, ThoroughUnbounded: true, Cache: true, QuickSecs: 45, ThoroughSecs: 900,
+		RaceHB: &cli.RaceHB{QuickBound: 1, ThoroughBound: 2},
 		Rule:        "S: every interleaving (preemption bound b, then all interleavings with the state cache) of Trigger/Hook/Unhook/LinkTo callers on runtime events (incl. max-trigger-count on event and hook, a pooled hook on a 1-worker pool), of Trigger/OnTrigger/unsubscribe on promise events and of Wait/Notify/Deregister on a value notifier; call counts judged against the recorded call/return intervals (exactly once when attached before the trigger began and not unhooked before it returned, zero when unhooked before / attached after, otherwise 0 or 1). H: every sequential history up to depth 6 (thorough 7) of Listener/Notify/Wait/Deregister over 2 values and 3 listeners; distinct = distinct observation logs / histories",
 		Assumptions: []string{"a Wait with a live context is only issued in the sequential histories when it cannot block"},
 		NotReached:  []string{"Event2..Event9 (generated from the same template as Event1)", "more than 3 concurrent triggers"},
